@@ -88,6 +88,11 @@ def make_envs(tier, seed):
     if not thorough:
         for e in pairwise({v: ext(v) for v in ["HOME", "XDG_CONFIG_HOME", "XDG_CONFIG_DIRS"]}, rng):
             out.append((e, 1, "config+vfs-ext"))
+    # the user's config directory listed AGAIN among the system directories (after / before / between others):
+    # XDG_CONFIG_HOME still comes first in the search order whatever XDG_CONFIG_DIRS repeats
+    for dirs in ("@/s1:@/ch", "@/ch:@/s1", "@/a:@/ch:@/b", "@/s1:@/home/.config"):
+        for ch in ("@/ch", None):
+            out.append((dict(HOME="@/home", XDG_CONFIG_HOME=ch, XDG_CONFIG_DIRS=dirs), 1, "config-home-repeated"))
     for v in ["XDG_DATA_HOME", "XDG_CACHE_HOME", "XDG_STATE_HOME", "XDG_RUNTIME_DIR"]:
         for e in product({"HOME": ext("HOME"), v: ext(v)}):
             out.append((e, 0, "home:" + v))
